@@ -25,6 +25,8 @@ CtxEv(e) ==
   IF ~e.ctx_restored THEN Bad(<<"C18", "the caller's contexts were modified", e.ctx_note>>)
   ELSE IF wrap.r # "ok" THEN TRUE                                          \* the context is not well formed: no obligation
   ELSE IF e.crashed THEN TRUE
+  ELSE IF ~HasHole(e.open) /\ LET i0 == Infer(e.open, ctx, FUEL) IN (i0.r = "ok" /\ ~e.ok_open) \/ (i0.r = "ill" /\ e.ok_open)
+       THEN Bad(<<"C18", "verdict under the context differs from the specification's verdict for the open term in that context", "impl", e.ok_open>>)
   ELSE IF e.ok_open # e.ok_closed THEN Bad(<<"C18", "verdict under the context differs from the verdict on the closed program", "open", e.ok_open, "closed", e.ok_closed>>)
   ELSE IF ~e.ok_open THEN TRUE
   ELSE IF ConvH(Close(e.binders, e.ty_open, TRUE), e.ty_closed, <<>>, FUEL).r = "no" THEN Bad(<<"C18", "type under the context, closed over the context, differs from the type of the closed program">>)
